@@ -76,6 +76,22 @@ def r1_alphabet(R) -> None:
             for (tag, dv) in vals:
                 sites += 1
                 ok = dv is not None and enum_value_ref(dv) in ALPHABET
+                if not ok and isinstance(dv, ast.Attribute) and dv.attr == 'value' and isinstance(dv.value, ast.Name) and dv.value.id in lf.locals:
+                    # `<member>.value` where the member was chosen earlier and carried in a local: every value the local
+                    # can hold here is a member of the enumeration (None aside, where the store is guarded by `is not None`)
+                    members = []
+                    for (s2, mv) in lf.values_reaching(nid, dv.value.id):
+                        stack2 = [mv]
+                        while stack2:
+                            y = stack2.pop()
+                            if isinstance(y, ast.IfExp):
+                                stack2 += [y.body, y.orelse]
+                            else:
+                                members.append(y)
+                    if members and all(m_ is not None and (is_const(m_, None) or (isinstance(m_, ast.Attribute) and isinstance(m_.value, ast.Name) and m_.value.id == 'SolutionStatus'
+                                                                                    and m_.attr in ALPHABET)) for m_ in members):
+                        ok = True
+                        sites += len([m_ for m_ in members if not is_const(m_, None)]) - 1
                 # fill_values.get('status', <enum>) : caller-supplied override allowed by C12
                 if not ok and dv is not None and isinstance(dv, ast.Call) and isinstance(dv.func, ast.Attribute) \
                         and dv.func.attr == 'get' and len(dv.args) == 2 and is_const(dv.args[0], 'status'):
